@@ -10,6 +10,7 @@ import (
 	"net/http"
 	"os"
 	"path/filepath"
+	"runtime"
 	"strconv"
 	"strings"
 	"sync/atomic"
@@ -154,6 +155,15 @@ var c14c struct {
 	// save (ok, slow, cut, reset, 500); requests beyond it are answered "ok".
 	script []string
 	reqs   atomic.Int32
+
+	// second list (id 8) and the state of a race of two overlapping updates
+	fltB   *FilterYAML
+	destB  string
+	raceOn bool
+	raceA  []byte
+	raceB  []byte
+	seenA  chan struct{}
+	seenB  chan struct{}
 }
 
 func must(err error) {
@@ -164,7 +174,12 @@ func must(err error) {
 
 // c14Serve answers one request of the list's HTTP source according to the
 // script of the current save.
-func c14Serve(w http.ResponseWriter, _ *http.Request) {
+func c14Serve(w http.ResponseWriter, rq *http.Request) {
+	if c14c.raceOn {
+		c14ServeRace(w, rq)
+
+		return
+	}
 	n := int(c14c.reqs.Add(1))
 	if c14c.status != 0 {
 		w.WriteHeader(c14c.status)
@@ -205,6 +220,35 @@ func c14Serve(w http.ResponseWriter, _ *http.Request) {
 	}
 }
 
+// c14ServeRace serves one of two lists downloaded at the same time: a third of
+// the body (ending in the middle of a line), then it waits until the other
+// download has begun as well, then the rest in two pieces — so that both
+// parsers sit on a half-read line while the other one works.
+func c14ServeRace(w http.ResponseWriter, rq *http.Request) {
+	body, mine, other := c14c.raceA, c14c.seenA, c14c.seenB
+	if rq.URL.Path == "/b.txt" {
+		body, mine, other = c14c.raceB, c14c.seenB, c14c.seenA
+	}
+	fl, _ := w.(http.Flusher)
+	a, b := len(body)/3, 2*len(body)/3
+	_, _ = w.Write(body[:a])
+	if fl != nil {
+		fl.Flush()
+	}
+	close(mine)
+	select {
+	case <-other:
+	case <-time.After(300 * time.Millisecond):
+	}
+	time.Sleep(2 * time.Millisecond)
+	_, _ = w.Write(body[a:b])
+	if fl != nil {
+		fl.Flush()
+	}
+	time.Sleep(2 * time.Millisecond)
+	_, _ = w.Write(body[b:])
+}
+
 // c14URL is the k-th source address of the block: a local file or an HTTP URL.
 func c14URL(k int) string {
 	if c14c.http {
@@ -241,6 +285,11 @@ func c14Child(f []string) []string {
 		}
 		flt := FilterYAML{Enabled: true, URL: c14URL(0), Name: "c14", Filter: Filter{ID: 7}}
 		c14c.dest = flt.Path(filepath.Join(w, "data"))
+		fltB := FilterYAML{Enabled: true, URL: filepath.Join(w, "src", "b.txt"), Name: "c14b", Filter: Filter{ID: 8}}
+		if c14c.http {
+			fltB.URL = "http://" + c14c.addr + "/b.txt"
+		}
+		c14c.destB = fltB.Path(filepath.Join(w, "data"))
 		if f[3] == "1" {
 			seed, _ := strconv.ParseUint(f[4], 10, 64)
 			_, want := c14Body(300, seed, "")
@@ -252,14 +301,16 @@ func c14Child(f []string) []string {
 			DataDir:        filepath.Join(w, "data"),
 			HTTPClient:     &http.Client{Timeout: 60 * time.Second},
 			SafeFSPatterns: []string{filepath.Join(w, "src", "*")},
-			Filters:        []FilterYAML{flt},
+			Filters:        []FilterYAML{flt, fltB},
 		}, nil)
 		must(err)
-		c14c.d, c14c.flt = d, &d.conf.Filters[0]
+		c14c.d, c14c.flt, c14c.fltB = d, &d.conf.Filters[0], &d.conf.Filters[1]
 
 		return []string{"ok"}
 	case "save":
 		return c14Save(f[1], f[2], f[3], f[4])
+	case "race":
+		return c14Race(f[1], f[2], f[3], f[4], f[5])
 	default:
 		panic("unknown command " + f[0])
 	}
@@ -356,6 +407,62 @@ func c14Save(variant, sizeS, seedS, probe string) []string {
 	// write each) of the ONE complete list served.
 	return []string{vutil.B(committed), strconv.Itoa(len(want)), vutil.B(finalOK), oldSum, vc14.FileSum(dest),
 		strconv.Itoa(int(c14c.reqs.Load())), strconv.Itoa(bytes.Count(want, []byte("\n")))}
+}
+
+// c14Race runs two overlapping updates of DIFFERENT lists on the one DNSFilter: a
+// refresh of list 7 and what add_url does for list 8 (update does not take the
+// refresh lock).  Both sources stall in the middle of a line.  Each committed
+// file must be exactly the normal form of ITS OWN source's complete body.
+// Answer: committedA finalOK oldSumA sumA sumA.
+func c14Race(variant, sizeA, seedA, sizeB, seedB string) []string {
+	mk := func(sizeS, seedS string) (raw, want []byte) {
+		size, _ := strconv.Atoi(sizeS)
+		seed, _ := strconv.ParseUint(seedS, 10, 64)
+
+		return c14Body(size, seed, "")
+	}
+	rawA, wantA := mk(sizeA, seedA)
+	rawB, wantB := mk(sizeB, seedB)
+	c14c.raceA, c14c.raceB = rawA, rawB
+	c14c.seenA, c14c.seenB = make(chan struct{}), make(chan struct{})
+	c14c.raceOn = true
+	defer func() { c14c.raceOn = false }()
+
+	beforeA, _ := os.ReadFile(c14c.dest)
+	beforeB, _ := os.ReadFile(c14c.destB)
+	oldSum := vc14.FileSum(c14c.dest)
+	if strings.HasSuffix(variant, "1") {
+		// One processor: the second download runs on the same P while the first
+		// is parked in a network read.
+		defer runtime.GOMAXPROCS(runtime.GOMAXPROCS(1))
+	}
+	var okA, okB bool
+	var errA, errB error
+	vc14.Window(func() {
+		done := make(chan struct{})
+		go func() { okA, errA = c14c.d.update(c14c.flt); close(done) }()
+		okB, errB = c14c.d.update(c14c.fltB)
+		<-done
+	})
+	afterA, _ := os.ReadFile(c14c.dest)
+	afterB, _ := os.ReadFile(c14c.destB)
+	check := func(ok bool, err error, after, before, want []byte) bool {
+		if err != nil {
+			return false
+		}
+		if ok {
+			return bytes.Equal(after, want)
+		}
+
+		return bytes.Equal(after, before)
+	}
+	finalOK := check(okA, errA, afterA, beforeA, wantA) && check(okB, errB, afterB, beforeB, wantB)
+	n := 0
+	if okA && errA == nil {
+		n = 1
+	}
+
+	return []string{strconv.Itoa(n), vutil.B(finalOK), oldSum, vc14.Sum(wantA), vc14.Sum(wantA)}
 }
 
 // ---------------------------------------------------------------- parent
@@ -516,6 +623,20 @@ func (p *c14Parent) gen(r *rand.Rand, emit vutil.Emit) {
 
 				return "1"
 			}
+			if src == "http" && !inj && r.IntN(9) == 0 {
+				// Two overlapping updates of different lists (this one and list 8),
+				// both sources stalling mid-line; small lists with short lines, so
+				// that both parsers work in the pooled 1 KiB buffer.
+				sa, sb := 300+r.IntN(3700), 300+r.IntN(3700)
+				wantLen, empty := body(sa, seed)
+				if !empty {
+					emit("C14.race", vutil.Pick(r, []string{"filters", "filters1", "filters1"}), strconv.Itoa(sa),
+						strconv.FormatUint(seed, 10), strconv.Itoa(sb), strconv.FormatUint(r.Uint64N(1<<40), 10), mode)
+					st.size, st.seed, st.wantLen, st.fileEmpty, st.ckZero = sa, seed, wantLen, false, false
+
+					continue
+				}
+			}
 			v := r.IntN(26)
 			if v >= 11 && v < 14 && st.fileEmpty {
 				v, size = 0, 0
@@ -597,6 +718,25 @@ func (p *c14Parent) run(f []string) []string {
 		}
 
 		return resp
+	case "C14.race":
+		rd := vc14.StartReader(p.dest)
+		resp, events, err := p.child.Do("race", f[1], f[2], f[3], f[4], f[5])
+		if err != nil || len(resp) != 5 {
+			rd.Stop()
+			if err != nil {
+				panic(err)
+			}
+
+			return resp
+		}
+		reads, bad := rd.Stop(resp[2], resp[3], resp[4])
+		out := []string{resp[0], resp[1], strconv.Itoa(reads), strconv.Itoa(bad)}
+		names := p.child.ListFiles(filepath.Join(p.w, "data", filterDir), p.tm)
+		out = append(out, strconv.Itoa(len(names)))
+		out = append(out, names...)
+		out = append(out, strconv.Itoa(len(events)))
+
+		return append(out, events...)
 	case "C14.save":
 		rd := vc14.StartReader(p.dest)
 		resp, events, err := p.child.Do("save", f[1], f[2], f[3], f[6])
